@@ -126,7 +126,8 @@ def run_a(case):
         where = _first_diff(before, after)
         fails.append((f"input-mutated/{entry}/{_kind_at(spec, out)}", {"before": before, "after": after, "outcome": out[0], "where": where}))
     changed = out[0] == "ok" and out[1] is not entries.ABSENT and not oracle.equal(out[1], codec.decode(vs))
-    if out[0] == "ok" and out[1] is not entries.ABSENT and entry in ("call", "transform", "schema", "dataclass", "param"):
+    preserving = any(v == "preserve" for k, v in opts.items() if k.startswith("invalid_"))     # 'preserve' keeps the caller's raw object on purpose
+    if out[0] == "ok" and out[1] is not entries.ABSENT and entry in ("call", "transform", "schema", "dataclass", "param") and not preserving:
         shared = aliased_generic(spec, x, out[1])
         if shared:
             # the result of a parameterised container type is built by the args parsers: handing the caller's own list/set/dict
